@@ -160,6 +160,10 @@ func flipByteAt(b []byte, i int, x byte) []byte {
 }
 
 func gen(g *GenCtx) {
+	if g.Parts > 1 {
+		// every part gets its own stream (hvlib seeds all parts alike)
+		g.R = NewRng(g.R.U64() ^ uint64(g.Part+1)*0x9E3779B97F4A7C15)
+	}
 	th := g.Thorough()
 	sel := func(i int) bool { return i%g.Parts == g.Part }
 	idx := 0
